@@ -101,6 +101,7 @@ def _parse_callee(text):
         if k.trait_full:
             k.trait = trait_key(k.trait_full)
         segs = [x for x in _split_path(rest) if x]
+        k.gen = [s for s in segs if s.startswith('<')]
         segs = [s for s in segs if not s.startswith('<')]
         k.method = '::'.join(segs)
         return k
@@ -257,6 +258,13 @@ class Program(object):
                 path = os.path.join(os.path.dirname(root), m.group(1))
             method = m.group(6)
             hdr = _span_text(path, int(m.group(2)), int(m.group(3)), int(m.group(4)), int(m.group(5)))
+            if re.match(r'\s*proto_vulcan\w*!', hdr):
+                # impls generated by a query macro inside a template function: keyed by that function
+                owner = name[:m.start()].rstrip(':').split('::')[-1]
+                trait = {'from_vec': 'QueryResult', 'clone': 'Clone'}.get(method.split('::')[0])
+                if trait:
+                    self.impls.setdefault((owner, trait, method), name)
+                return
             ty, trait = _parse_impl_header(hdr, path, int(m.group(2)), method)
             self.impls.setdefault((ty, trait, method), name)
             return
@@ -528,6 +536,16 @@ class Machine(object):
             return Ref(fr.cells[p[1]])
         if k == 'field':
             r = self.place(fr, p[1])
+            ty = p[3]
+            if r.meta == 'boxptr':
+                return r                      # `.0: NonNull<T>` of a Box's Unique: still the box pointer
+            if ty.startswith('std::ptr::Unique<'):
+                base = load(r, self.ctx.resolve)
+                if isinstance(base, Adt) and base.ty == 'Box' and not (
+                        base.fields and isinstance(base.fields[0], Adt) and base.fields[0].ty == 'Unique'):
+                    # raw pointer stored inside a Box (value semantics: the Box *is* its content);
+                    # reading this place yields a pointer to the content
+                    return Ref(r.cell, r.path, 'boxptr')
             return Ref(r.cell, r.path + (p[2],))
         if k == 'deref':
             r = self.place(fr, p[1])
@@ -564,6 +582,8 @@ class Machine(object):
 
     def read(self, fr, p):
         r = self.place(fr, p)
+        if r.meta == 'boxptr':
+            return Ref(r.cell, r.path + (0,))
         v = load(r, self.ctx.resolve)
         if v is None:
             raise NotEncodable('read of uninitialised %r in %s' % (p, fr.fn.name))
@@ -600,6 +620,15 @@ class Machine(object):
                 return Adt(segs[-2], self.p.enums[segs[-2]].index(segs[-1]), ())
             if 'promoted[' in txt:
                 return self.promoted(txt)
+            if txt.startswith('ZeroSized: '):
+                ty = txt[len('ZeroSized: '):].strip()
+                if ty.startswith('{closure@'):
+                    return Adt(ty, 0, ())
+                if self.models is not None and hasattr(self.models, 'zero_sized'):
+                    z = self.models.zero_sized(ty)
+                    if z is not None:
+                        return z
+                return Adt(type_head(ty), 0, ())
             if txt.endswith(')') and not txt.startswith('<'):
                 j = mir._open_paren_of_last(txt)
                 head = [s for s in _split_path(txt[:j]) if not s.startswith('<')]
@@ -1071,6 +1100,9 @@ class Machine(object):
             cands = [n for n in p.free if n == key.path.split('::')[-1] or n.endswith(suffix)]
             if len(cands) == 1:
                 return cands[0]
+            last = key.path.split('::')[-1]
+            if last in cands:
+                return last
             for n in cands:
                 if n.endswith('::'.join(key.path.split('::')[-2:])):
                     return n
@@ -1093,6 +1125,12 @@ class Machine(object):
                     if ty2 == t and m == key.method and tr and tr.split('<')[0] == base]
             if len(hits) == 1:
                 return hits[0]
+            # several impls of the same trait for this type: a concrete trait argument did not match, so
+            # take the one that is generic in that argument (`impl<G> GoalCast<U, E, G> for InferredGoal<U, E, G>`)
+            gen = [nm for (ty2, tr, m), nm in p.impls.items()
+                   if ty2 == t and m == key.method and tr and tr.split('<')[0] == base and re.search(r'<[A-Z]\w?>$', tr)]
+            if len(gen) == 1:
+                return gen[0]
         # blanket impls (`impl<T> Trait for T`)
         base = key.trait.split('<')[0] if key.trait else None
         for (ty2, tr, m), nm in p.impls.items():
@@ -1165,6 +1203,8 @@ def _explore(make_machine, scenario, max_paths=200000, on_path=None, time_budget
         except PathAbort as e:
             r.status, r.detail = 'abort', str(e)
         except NotEncodable as e:
+            if os.environ.get('MIRSYM_DEBUG'):
+                raise
             r.status, r.detail = 'notenc', str(e)
             stats['notenc_reasons'][str(e)[:200]] = stats['notenc_reasons'].get(str(e)[:200], 0) + 1
         except RecursionError:
